@@ -38,7 +38,8 @@ func (app *App) internalAPI(topic string) {
 			if err == nil {
 				c.Hub.Broadcast <- hub.Message{Sender: *c, Data: reply, Type: websocket.TextMessage, Sent: time.Now()} //mmmm type needed here == too much coupling ...!!
 			} else {
-				c.Hub.Broadcast <- hub.Message{Sender: *c, Data: []byte(`{"error":"` + err.Error() + `"}`), Type: websocket.TextMessage, Sent: time.Now()}
+				errReply, _ := json.Marshal(map[string]string{"error": err.Error()})
+				c.Hub.Broadcast <- hub.Message{Sender: *c, Data: errReply, Type: websocket.TextMessage, Sent: time.Now()}
 			}
 
 		case <-app.Closed:
@@ -136,7 +137,7 @@ func (app *App) handleAdminMessage(msg []byte) ([]byte, error) {
 				default:
 					if cmd.Which != "apiRule" {
 						app.Websocket.Delete <- cmd.Which
-						reply = []byte(`{"deleted":"` + cmd.Which + `"}`)
+						reply, err = json.Marshal(map[string]string{"deleted": cmd.Which})
 					} else {
 						err = errNoDeleteAPIRule
 					}
@@ -174,7 +175,7 @@ func (app *App) handleAdminMessage(msg []byte) ([]byte, error) {
 					reply = []byte(`{"deleted":"deleteAll"}`)
 				default:
 					app.Hub.Delete <- cmd.Which
-					reply = []byte(`{"deleted":"` + cmd.Which + `"}`)
+					reply, err = json.Marshal(map[string]string{"deleted": cmd.Which})
 				}
 			case "list":
 				switch cmd.Which {
